@@ -249,6 +249,45 @@ func c16Topology(c *Ctx, idx int, total int, steps []topoStep, failedUse bool, r
 			}
 			time.Sleep(3 * window) // the pending refresh (if any) fires on the new connection
 			before = -1            // the reconnect itself re-queried the tables; nothing more to wait for in this step
+		case "later":
+			// nothing happens for six seconds: routing that had converged must stay converged (whatever timers a removal or
+			// an addition left behind have fired by then)
+			time.Sleep(6 * time.Second)
+			before = -1
+		case "down-events-then-control-host-stops":
+			// the control node announces every other node DOWN (they are not: a partitioned node sees the others that way),
+			// then stops itself. The control connection must fail over to one of the others all the same.
+			var ctlHost int
+			for _, x := range bed.Cluster.EstablishedControlConns() {
+				ctlHost = x.Host.Idx
+			}
+			if ctlHost == 0 {
+				r.Inconc("c16: no control connection to announce DOWN events on")
+				return
+			}
+			for h, v := range listed {
+				if v && h != ctlHost {
+					bed.Cluster.Emit(&message.StatusChangeEvent{ChangeType: primitive.StatusChangeTypeDown, Address: &primitive.Inet{Addr: net.ParseIP(bed.Cluster.HostIP(h)), Port: int32(bed.Cluster.Port)}})
+				}
+			}
+			time.Sleep(20 * time.Millisecond)
+			bed.Cluster.Hosts[ctlHost-1].Stop()
+			r.Obs("down_events_then_control_host_stops", 1)
+			elsewhere := waitFor(func() bool {
+				for _, x := range bed.Cluster.EstablishedControlConns() {
+					if x.Host.Idx != ctlHost {
+						return true
+					}
+				}
+				return false
+			}, wd)
+			if !elsewhere {
+				r.Violate(mon.Violation{Signature: "C16/control-not-failed-over-to-reachable-host/after-down-events", Detail: fmt.Sprintf("the control node (host %d) announced the other %d nodes DOWN and then stopped; the others are up and listed, but %s later the control connection has not been re-established on any of them", ctlHost, nListedOf(listed)-1, wd), Scenario: scenario})
+				return
+			}
+			_ = bed.Cluster.Hosts[ctlHost-1].Start(true)
+			before = peersAnswered()
+			bed.Cluster.Emit(&message.StatusChangeEvent{ChangeType: primitive.StatusChangeTypeUp, Address: &primitive.Inet{Addr: net.ParseIP(bed.Cluster.HostIP(ctlHost)), Port: int32(bed.Cluster.Port)}})
 		case "restart":
 			bed.Cluster.Hosts[st.Host-1].Stop()
 			time.Sleep(5 * time.Millisecond)
@@ -358,6 +397,16 @@ func c16Topology(c *Ctx, idx int, total int, steps []topoStep, failedUse bool, r
 	if idx%5 == 0 {
 		r.Sample(map[string]interface{}{"topology_steps": label, "failed_use": failedUse})
 	}
+}
+
+func nListedOf(listed map[int]bool) int {
+	n := 0
+	for _, v := range listed {
+		if v {
+			n++
+		}
+	}
+	return n
 }
 
 // ---------------------------------------------------------------------------------------------------------------------
@@ -912,6 +961,17 @@ func runC16(c *Ctx) {
 		{4, []topoStep{{"add", 3}, {"add", 4}, {"remove", 2}}, false},
 		{3, []topoStep{{"ctl-loss-in-window", 2}, {"add", 3}, {"remove", 2}}, false},
 		{4, []topoStep{{"add", 3}, {"ctl-loss-in-window", 3}, {"add", 4}}, false},
+		{3, []topoStep{{"add", 3}, {"remove", 3}, {"add", 3}, {"later", 0}}, false},
+		{3, []topoStep{{"add", 3}, {"down-events-then-control-host-stops", 0}, {"remove", 3}}, false},
+	}
+	if !c.Quick() {
+		for k := 0; k < 12; k++ {
+			fixed = append(fixed, struct {
+				total int
+				steps []topoStep
+				fu    bool
+			}{2 + k%3, []topoStep{{"remove", 2}, {"add", 2}, {"later", 0}, {"down-events-then-control-host-stops", 0}, {"restart", 2}}[k%3 : 3+k%3], k%2 == 0})
+		}
 	}
 	for i, f := range fixed {
 		if j := next(); c.Mine(j) {
